@@ -79,8 +79,11 @@ ASSUMPTIONS = [
     "trso_no_surrogate_iff_id: verdicts (trso_no_surrogate_iff_id_partial, trso_no_surrogate_none_iff_id_partial) and "
     "denotations (trso_sound_no_surrogate for ANY separation test, trso_no_surrogate_den_eq_id: both estimands are "
     "P(Y|do(X)) in every compatible model) are proved for inputs whose source domains DECLARE no experiment; 'no experiment "
-    "is usable although some are declared' is covered by trso_sound for the denotation but not by a verdict theorem (the "
-    "verdict is compared with the real identify_outcomes on every such case)",
+    "is usable although some are declared' is proved in Props/C05Usable (trso_no_usable_surrogate_iff_id and companions) with "
+    "'usable' made precise as the executable predicate identifyUsesLine6 = 'at some state of the run line 6 (trso_line6) returns "
+    "a non-empty dict or fails' (it inspects every c-component at line 4, the Python loop stops at the first refusal: an "
+    "over-approximation, so the hypothesis 'never used' is slightly stronger than necessary); that reading of 'usable' is an "
+    "assumption about the property text; the predicate is compared with a spy on the real trso_line6 on every run (stream uses6)",
     "trso_no_internal_error (last sentence) is PROVED for the Lean model for ALL validated inputs (Props/C05 "
     "trso_no_internal_error: identify_target_outcomes returns an estimand or 'no estimand', no exception of any kind, in "
     "particular not the NotImplementedError of activate_domain_and_interventions on One(): the estimand of a run inside "
@@ -607,6 +610,16 @@ def cases(rng: random.Random, tier: str):
                     "pop": rng.choice([TARGET + 1, TARGET + 2]), "eval_seed": rng.randrange(1 << 30)})
     for _ in range(n_keys):
         out.append(_malform(rng, _rand_identify(rng, 5), rng.choice(["keys_extra", "keys_renamed", "outside_dom_any"])))
+    # `uses6` (session 4; appended): the HYPOTHESIS of trso_no_usable_surrogate_iff_id (Props/C05Usable.lean) on the real code.
+    # Siblings of the identify cases that declare an experiment and are not malformed: did the real run's trso_line6 ever
+    # return a usable domain, and are TRSO's and ID's verdicts the same?  (model side: driver op uses_line6)
+    sib = [c for c in out if c.get("kind") == "identify" and "malformed" not in c and any(Z for Z, _ in c.get("domains", []))]
+    n_use = {"quick": 1500, "escalated": 4000}.get(tier, 12000)
+    step = max(1, len(sib) // n_use)
+    for c in sib[::step][:n_use]:
+        d = json.loads(json.dumps(c))
+        d["kind"] = "uses6"
+        out.append(d)
     return out
 
 
@@ -1093,10 +1106,86 @@ def _helper_semantics(case, op, enc):
     return None
 
 
+def _run_uses6(case):
+    """Did the real run find a usable source domain at line 6 (trso_line6 returned a non-empty dict, or raised), and do TRSO and
+    ID agree on the verdict?  The Lean predicate `identifyUsesLine6` over-approximates in one direction (it inspects every
+    c-component of line 4, the Python loop stops at the first 'no estimand'), so the comparison (`Uses6Out.__eq__`) is:
+    real-run-used => model-says-used, and model-says-unused => same verdict as ID (the conclusion of the theorem, on the real
+    code).  Oracle clause (independent of the model): a run that never used line 6 must give ID's verdict (second sentence of C05)."""
+    import y0.algorithm.transport as T
+    from y0.algorithm.identify import identify_outcomes
+
+    graph, X, Y, so, si, fm = build_call(case)
+    valid = _valid_identify(case)
+    used = []
+    real = T.trso_line6
+
+    def spy(query):
+        try:
+            r = real(query)
+        except Exception:
+            used.append("raised")
+            raise
+        if r:
+            used.append(len(r))
+        return r
+
+    T.trso_line6 = spy
+    try:
+        try:
+            with recursion_guard():
+                r = T.identify_target_outcomes(graph, target_outcomes=Y, target_interventions=X, surrogate_outcomes=so,
+                                               surrogate_interventions=si)
+            tv = "none" if r is None else "estimand"
+        except Exception as e:  # noqa: BLE001
+            tv = "err-" + _classify_exception(e)
+    finally:
+        T.trso_line6 = real
+    try:
+        with recursion_guard():
+            idr = identify_outcomes(graph, treatments=X, outcomes=Y)
+        iv = "none" if idr is None else "estimand"
+    except Exception:  # ID's own crash is not C05's business  # noqa: BLE001
+        iv = "?"
+    p = bool(used)
+    fail = None
+    if valid and not p and iv != "?" and tv in ("none", "estimand") and tv != iv:
+        fail = (f"line 6 never found a usable source domain during the run (no surrogate experiment is usable), but TRSO returned "
+                f"{'no estimand' if tv == 'none' else 'an estimand'} while ID returned {'no estimand' if iv == 'none' else 'an estimand'}")
+    tags = {"kind": "uses6", "valid_input": valid, "line6_used": p, "trso": tv, "id": iv, "n_domains": len(case["domains"]),
+            "n_nodes": len(G.all_nodes(case["g"]))}
+    return {"out": ["uses6", valid, p, tv, iv], "fail": fail, "nontrivial": valid and len(G.all_nodes(case["g"])) >= 3, "tags": tags}
+
+
+class Uses6Out(list):
+    """model side of a `uses6` case: [m] with m = identifyUsesLine6.  Equal to the Python's ["uses6", valid, p, tv, iv] when
+    (p => m) and (not m and the input is valid and both verdicts are known => tv == iv)."""
+    stats = {"both_used": 0, "both_unused": 0, "model_only": 0}
+
+    def __ne__(self, other):
+        return not self.__eq__(other)
+
+    def __eq__(self, other):
+        if not isinstance(other, list) or len(other) != 5 or other[0] != "uses6":
+            return False
+        _, valid, p, tv, iv = other
+        m = bool(self[0])
+        if p and not m:
+            return False
+        if valid and not m and iv != "?" and tv in ("none", "estimand") and tv != iv:
+            return False
+        Uses6Out.stats["both_used" if p and m else "both_unused" if not m else "model_only"] += 1
+        return True
+
+    __hash__ = None
+
+
 def run_python(case):
     logging.getLogger("y0").setLevel(logging.CRITICAL)
     if case["kind"] == "identify":
         return _run_identify(case)
+    if case["kind"] == "uses6":
+        return _run_uses6(case)
     return _run_helper(case)
 
 
@@ -1106,7 +1195,7 @@ def request(case):
     k = case["kind"]
     g = case["g"]
     gs = C.graph_sexp(G.all_nodes(g), g["di"], g["bi"])
-    if k == "identify":
+    if k in ("identify", "uses6"):
         so = [[TARGET + 1 + i, W] for i, (Z, W) in enumerate(case["domains"])]
         si = [[TARGET + 1 + i, Z] for i, (Z, W) in enumerate(case["domains"])]
         if case.get("malformed") == "keys":
@@ -1115,7 +1204,7 @@ def request(case):
             si = si + [[TARGET + 1 + len(si), []]]
         elif case.get("malformed") == "keys_renamed":
             si = si[:-1] + [[TARGET + 1 + len(si), si[-1][1]]]
-        return C.enc(["transport", "identify", gs, case["Y"], case["X"], so, si])
+        return C.enc(["transport", "identify" if k == "identify" else "uses_line6", gs, case["Y"], case["X"], so, si])
     if k == "nodes_to_transport":
         return C.enc(["transport", k, gs, case["Z"], case["W"]])
     if k == "transport_diagram":
@@ -1157,6 +1246,8 @@ class SemOut(list):
 
 def canon_model(case, rep):
     k = case["kind"]
+    if k == "uses6":
+        return Uses6Out([rep[0] == "ok" and str(rep[1]) in ("true", "True")])
     if rep[0] == "err":
         return ["err", "invalid" if rep[1] == "invalid" else "internal"]
     if rep[0] == "none":
@@ -1229,6 +1320,10 @@ def finding_key(case, res):
 
 
 def _report():
+    u = Uses6Out.stats
+    if sum(u.values()):
+        print(f"[C05] uses6 (hypothesis of trso_no_usable_surrogate_iff_id on the real run): used by both={u['both_used']} "
+              f"unused by both={u['both_unused']} model-only (line-4 over-approximation)={u['model_only']}", file=sys.stderr)
     s = SemOut.stats
     if sum(s.values()):
         print(f"[C05] estimand correspondence: structural={s['structural']} semantic_only={s['semantic_only']} "
@@ -1241,7 +1336,7 @@ atexit.register(_report)
 
 MANIFEST = {
     "text": ("Proof (for the executable model). Lean theorems about the executable model of transport.py (Y0.Model.Trso / TrDsl, tied to the code "
-             "by the correspondence check on every run; 27 theorems in Props/C05 + 19 in Props/C06Transport): "
+             "by the correspondence check on every run; 27 theorems in Props/C05 + 13 in Props/C05Usable + 19 in Props/C06Transport): "
              "(0) SOUNDNESS (trso_sound, full strength): whenever identify_target_outcomes returns an estimand, its value in "
              "every family of positive semi-Markovian models compatible with the derived selection diagrams, with pi* leaves "
              "read in the target model and PP[d](.. @ z) leaves read in the model of domain d under do(z), is the target P*(y|do(x)) "
@@ -1276,8 +1371,15 @@ MANIFEST = {
              "same non-empty subscript set, a subset of that domain's declared experiments; no leaf and no Sum range mentions "
              "a selection node; without declared experiments only target terms occur (trso_no_domains_target_only); "
              "(4) semantics - Sum.safe denotes the iterated sum and line 1 is marginalisation of the carried distribution "
-             "(den_sumSafe, line1_den). Left partial: the VERDICT equivalence with ID is proved when no experiment is declared, "
-             "not for 'declared but none usable'. All clauses are also decided on every run by the correspondence plus the "
+             "(den_sumSafe, line1_den). (5) NO USABLE EXPERIMENT (Props/C05Usable, session 4): identifyUsesLine6 (Model/TrsoUse) is an executable "
+             "predicate that follows the run and says whether line 6 finds a usable source domain at some state; when it is false "
+             "TRSO's run equals the run with every declared experiment forgotten (trsoF_clearSurr), hence TRSO returns an estimand "
+             "iff ID does, 'no estimand' iff ID raises Unidentifiable, never fails otherwise, and its estimand denotes P(Y|do(X)) and "
+             "equals ID's in every compatible model (trso_no_usable_surrogate_iff_id, _none_iff_id, _no_error, "
+             "trso_sound_no_usable_surrogate, trso_no_usable_surrogate_den_eq_id); the `_partial` theorems (no experiment DECLARED) "
+             "are the special case identifyUsesLine6_of_no_declared; a bow graph with an experiment on the treatment shows the "
+             "hypothesis cannot be dropped. The predicate is tied to the real run on every check (stream `uses6`: a spy on "
+             "trso_line6; real-run-used => model-says-used, model-says-unused => TRSO's and ID's real verdicts agree). All clauses are also decided on every run by the correspondence plus the "
              "exact-rational multi-domain oracle, which evaluates every returned estimand at every value assignment on two "
              "random compatible families, by an independent re-computation of get_nodes_to_transport for every declared "
              "domain of every case, by comparison with identify_outcomes on every no-surrogate case, and by treating "
